@@ -193,7 +193,7 @@ PLAN = {
              "return (outside the fragments). A device model would be a different technique family.",
     ),
     "C10": dict(
-        verus=["group_cycle", "wrapped", "pdi_config", "state_wait"], kani=["summaries"], assumptions=['A-TIME-1: an await inside a timeout scope that suspends takes positive time; TimeoutFuture::poll tests its timer whenever the task is resumed (rule R18 model)', 'ECHO-SHAPE network assumption for is_state', 'per-device request seen through the abstraction `state_requested` of the contract proved in pdi_config'], level="proof",
+        verus=["group_cycle", "wrapped", "pdi_config", "state_wait", "group_typestate"], kani=["summaries"], assumptions=['A-TIME-1: an await inside a timeout scope that suspends takes positive time; TimeoutFuture::poll tests its timer whenever the task is resumed (rule R18 model)', 'ECHO-SHAPE network assumption for is_state', 'per-device request seen through the abstraction `state_requested` of the contract proved in pdi_config'], level="proof",
         claim="wait_for_state extracted WHOLE with its timeout scope made explicit (rule R18): Ok only if one sweep found every member in the requested state, and the polling "
               "loop lies inside the state-transition timeout scope with the remaining time as its termination measure (a stalled device ends in the timeout error, not in an "
               "endless loop); transition_to's request loop + wait as one fragment: Ok only if the request was written to and acknowledged by EVERY member and every member then "
